@@ -614,11 +614,23 @@ def run(rep, tier):
     sp = Spec(T.F)
     inst = new_instance(cls, probe[0][1], probe[0][2])
     sp.opaque_funcs.update(q for q in repo.functions if q.startswith(um + ".t_"))
-    sp.run(ro, [inst])
+    out_ro = sp.run(ro, [inst])
     eff = [(k, e) for k, e in flatten_effects(sp.effects)]
     first = eff[0] if eff else None
     ok = first is not None and first[0] == "read" and first[1].args[1] == 1
     rep.ob("R3", ro.qualname, "consumes-a-byte-before-dispatch", ok, expected="fp.read(1) is the first effect", derived=str(first[1])[:100] if first else None)
+    # end of input must end the decode: r_object may not return normally on a path whose condition is "the read gave nothing"
+    if ok:
+        rd = first[1].args[2]
+        soft = []
+        for g, l in leaves(out_ro):
+            empties = [x for x in g if (isinstance(x, Op) and x.op == "not" and repr(x.args[0]) == repr(rd)) or show(x) in (
+                "Eq(len(%s), 0)" % show(rd), "Eq(%s, b'')" % show(rd), "not(len(%s))" % show(rd), "Lt(len(%s), 1)" % show(rd))]
+            if empties and not isinstance(l, Raise):
+                soft.append("%s under %s" % (type(l).__name__ + ("(%s)" % show(getattr(l, "value", None))[:30]), show(empties[0])))
+        rep.ob("R3", ro.qualname, "end-of-input-raises", not soft, expected="an empty read raises (ord(b'') / explicit raise); no path returns a value when nothing was read",
+               derived=soft or "no path tests for an empty read and continues", where="xdis/unmarshal.py:%d" % ro.node.lineno,
+               msg="at end of input r_object %s instead of raising: a dict without its terminator, or a container with a forged count, is decoded for ever" % "; ".join(soft))
     rep.analysed(ro.qualname)
     header_rule(rep, T)
     fast_reader_rule(rep, repo, T, cg)
